@@ -505,7 +505,7 @@ func (u *Unit) evalField(e *SExpr, env *Env) Val {
 			// heap typing invariant for the value read (references point to allocated objects,
 			// integers are in range): the same assumption the executor makes at every load
 			switch ft.Underlying().(type) {
-			case *types.Slice, *types.Pointer, *types.Map:
+			case *types.Slice, *types.Pointer, *types.Map, *types.Interface:
 				u.assume(tTrue, u.typeInv(env.st, v, ft))
 			}
 		}
@@ -648,6 +648,9 @@ func (u *Unit) evalCall(e *SExpr, env *Env) Val {
 			u.specFail("fresh() not available here")
 		}
 		t := u.termOf(x)
+		if t.Sort == "Iface" {
+			t = app("Int", "irefof", t)
+		}
 		return Val{T: and(not(eq(t, intLit(0))), app("Bool", ">=", t, env.old.alloc))}
 	case "unbox":
 		x := u.eval(e.Args[0], env)
